@@ -97,8 +97,8 @@ def build_cfg(case: Dict) -> Dict:
     if case.get("declare"):
         (services if kind == "service" else apps).append({"type": typ})
     for k, t in case.get("extra", []):
-        if t == typ:
-            continue
+        if t == typ or (typ == "c2-server" and t == "c2-beacon"):
+            continue  # (a second, unconnected beacon on the target host would also get the keep-alive meant for the server)
         (services if k == "service" else apps).append({"type": t})
     lis = case.get("listener")
     if lis in (True, "c2") and typ not in ("c2-server", "c2-beacon") and not any(a["type"] == "c2-server" for a in apps):
@@ -108,6 +108,8 @@ def build_cfg(case: Dict) -> Dict:
         ltype = "ntp-server" if typ not in ("ntp-server", "ntp-client") else "database-service"
         services = [x for x in services if x["type"] != ltype]
         services.append({"type": ltype, "options": {"listen_on_ports": [LISTEN_PORT[typ]]}})
+    if typ == "c2-beacon":  # the peer hosts the C2 server the beacon is configured for (set-up step in _run)
+        cfg["simulation"]["network"]["nodes"][2]["applications"] = [{"type": "c2-server"}]
     if services:
         h0["services"] = services
     if apps:
@@ -513,9 +515,6 @@ def _run(case, res, game, sim, node, peer, sm, spy, kind, typ, ops, base):
 
         elif k == "payload":
             spy.calls.clear()
-            if typ == "c2-beacon" and (cur() is None or getattr(cur(), "c2_remote_connection", None) is None):
-                res.label("payload-skipped")  # an unconfigured beacon never receives C2 traffic
-                continue
             if typ == "nmap" and cur() is None and "C13-nmap-uninstalled-crash" in case.get("excl", ()):
                 res.label("excluded:C13-nmap-uninstalled-crash")  # known crash would end the case here
                 continue
@@ -667,7 +666,7 @@ def _run(case, res, game, sim, node, peer, sm, spy, kind, typ, ops, base):
             else:
                 if obs not in dst:
                     res.violate(f"wrong-target-state:{sig_tail}->{obs}", f"{when}: status {r.status}, expected {sorted(dst)}")
-                if r.status != "success" and obs != pre:
+                if r.status != "success" and obs != pre and verb != "execute":  # execute = run, then act: the act may fail
                     res.violate(f"refused-request-changed-operating-state:{sig_tail}", f"{when}: {r.status}, {pre} -> {obs}")
             # bookkeeping of timed transitions
             if obs == "RESTARTING" and pre != "RESTARTING":
@@ -788,10 +787,17 @@ def state_sweep_cases():
             else:
                 prefixes = [[["req", "close"]], [["uninstall"]], [["uninstall"], ["install"]], [["node_off"]],
                             [["uninstall"], ["install"], ["tick"], ["tick"], ["tick"]]]
+            if kind == "application":  # an application that has been used before it leaves RUNNING (c2-beacon: connected)
+                prefixes = prefixes + [[["req", "execute"]] + p for p in prefixes[:2]]
             for pre in prefixes:
                 for lis in (False, "c2", "port"):
                     yield {"kind": kind, "type": typ, "declare": not system, "extra": [], "listener": lis, "rd": 2 if kind == "service" else None,
                            "pd": 0, "ops": [list(o) for o in pre] + [["payload"], ["tick"], ["payload"]]}
+
+
+# open findings whose exclusion-by-construction the generators switch on (carried in case["excl"] so that replays of the
+# findings themselves, which do not carry it, still reproduce)
+EXCLUDABLE = {"C13-nmap-uninstalled-crash"}
 
 
 def timing_cases():
@@ -804,7 +810,7 @@ def timing_cases():
 
 def worker(ctx: Ctx):
     depth = 3 if ctx.tier == "quick" else 4
-    excl = sorted(ctx.excl)
+    excl = sorted(set(ctx.excl) & EXCLUDABLE)
 
     def tag(cases):
         for c in cases:
